@@ -491,12 +491,14 @@ class Report:
       seen_known.add(kid)
       print('KNOWN-FINDING: property=%s rule=%s site=%s %s' %
             (self.prop, v['rule'], v['site'], k.get('what', v['msg'])))
-    (VERIF / 'replays').mkdir(exist_ok=True)
+    dry = bool(os.environ.get('VERIF_NO_EVIDENCE'))
+    if not dry:
+      (VERIF / 'replays').mkdir(exist_ok=True)
     for v in unlisted:
       h = hashlib.sha256(
           (v['rule'] + '|' + v['site']).encode()).hexdigest()[:10]
       path = VERIF / 'replays' / ('%s-%s-%s.json' % (self.prop, v['rule'], h))
-      path.write_text(json.dumps(dict(
+      (path.write_text if not dry else (lambda _t: None))(json.dumps(dict(
           property=self.prop, rule=v['rule'],
           rule_statement=self.rules.get(v['rule'], ''), site=v['site'],
           line=v['line'], message=v['msg'], facts=_js(v['facts']),
@@ -508,7 +510,8 @@ class Report:
       print('VIOLATION property=%s replay=%s' % (self.prop, path))
       if exit_code == 0:
         exit_code = 1
-    self._write_evidence(seed, len(unlisted), len(listed))
+    if not dry:
+      self._write_evidence(seed, len(unlisted), len(listed))
     total = len(self.instances)
     print('%s %s: %d rule instances over %d rules, %d violations '
           '(%d known), %.2fs' %
